@@ -21,5 +21,5 @@ Qed.
 From Coq Require Import List String.
 Import ListNotations.
 Lemma leaf_reads_exports :
-  L_exports_Exports_is_forwarded_args = ["self.datadir.VirtualAddress : u32"%string; "self.datadir.Size : u32"%string; "rva : u32"%string].
+  L_exports_Exports_is_forwarded_args = ["self.datadir.VirtualAddress : u32"%string; "self.datadir.Size : u32"%string; "arg1 : u32"%string].
 Proof. repeat split; reflexivity. Qed.
